@@ -21,7 +21,7 @@ from harness.proto import Atom, B
 
 PROP = 'C19'
 TRUSTED = [
-    'modelled, not verified: genshi/filters/i18n.py (Translator.__call__/extract/_extract_attrs, MessageBuffer, parse_msg, the i18n directives) - hand-written Lean model tied by differential correspondence on generated template streams',
+    'modelled, not verified: genshi/filters/i18n.py (Translator.__call__/extract/_extract_attrs, MessageBuffer, parse_msg, MsgDirective, ChooseDirective and its branches: __call__ and extract) - hand-written Lean model tied by differential correspondence on generated template streams',
     'not modelled: the template engine around the filter (parsing, _flatten, expression evaluation, non-i18n directives are opaque in the model); `re` (the two regular expressions are re-implemented as list functions); str.strip/str.isalpha (character classes generated from the running interpreter); gettext',
     'the reference template construction in harness/gen_i18n.py (i18n markup removed, message contents rebuilt from the documented [n:...] / %(name)s format)',
 ]
@@ -699,6 +699,39 @@ def corr_lines(case, rng):
         else:
             real_b = [Atom('ok'), proto.N]
         out.append(('msggen', line, [real_a, real_b]))
+    # --- ChooseDirective.__call__ on every plural choice of the template
+    tmpl, tr = fresh_template(case)
+    w = Wire()
+
+    def chooses_of(events):
+        for e in events:
+            if e[0] is SUB:
+                for d in e[1][0]:
+                    if isinstance(d, i18n.ChooseDirective):
+                        yield d, e[1][1]
+                for x in chooses_of(e[1][1]):
+                    yield x
+    for d, sub in chooses_of(tmpl.stream):
+        catkind = rng.choice(['id', 'id', 'pad', 'const', 'dup'])
+        g = CATS[catkind]
+
+        def ngt(s, p, n, g=g):
+            if s == PROBE_S and p == PROBE_P:
+                return s if n == 1 else p
+            return g(None, None, s if n == 1 else p)
+        ctxt = Context(**case['data'])
+        ctxt['_i18n.ngettext'] = ngt
+        try:
+            numeral = d.numeral.evaluate(ctxt)
+        except Exception:  # noqa
+            continue
+        line = proto.line(Atom('C19'), Atom('choose'), list(d.params), B(numeral != 1), Atom(catkind), w.stream(sub))
+        try:
+            res = list(d(iter(sub), [], ctxt))
+            real = [Atom('ok'), w.stream(res)]
+        except Exception as e:  # noqa
+            real = [Atom('err'), Atom(errname(e))]
+        out.append(('choose', line, real))
     return out
 
 
